@@ -40,6 +40,9 @@ ASSUMPTIONS = [
     "That the numerical step rules (RFO shift, PRFO partitioning, trust radius) REACH a stationary point, and 'exactly one negative Hessian eigenvalue' for PRFO, are explored on the analytic surface family, not proved",
     "Exceptions raised inside _step / the gradient calculation propagate out of run() (no convergence is reported); the model loop covers runs whose step and gradient evaluation return",
     "A user callback does not add entries to the optimiser history",
+    "Constructing an optimiser with the documented `coords=` argument makes run() raise AssertionError from conv_params (the user's coordinates carry no energy); modelled (run_with / PRE) and exercised, but outside the property: no convergence is reported",
+    "The statement evaluated by logger.info after the loop (self.converged once more) and NDOptimiser._log_convergence are modelled as no-ops; they can only raise where converged itself raises",
+    "'line-search helpers' of the property text have no referent in this tree (autode/opt/optimisers has no line-search module); QAOptimiser and Dimer are not in the anchor list and are not exercised",
     "'Gradient within the constraint surface' is checked independently as: some multipliers l exist with RMS(g - sum l_k grad C_k) and max|g - sum l_k grad C_k| within the thresholds (least squares / linear programme)",
 ]
 RULE = ("params: criteria (4 presets, dyadic random, unset attributes, zero/inf) x measured values at ratios "
@@ -50,7 +53,9 @@ RULE = ("params: criteria (4 presets, dyadic random, unset attributes, zero/inf)
         "(incl. exact stationary start) x {Cartesian/DIC steepest descent, RFO, CRFO with 0-2 distance constraints, "
         "PRFO} x tolerance presets/custom/strict/thresholds in eV, kcal/mol, bohr, pm x maxiter (1..3 and 40..300, incl. "
         "runs of > 10 iterations for the reload; and a file-based (uses_external_io) fake program with two optimisations of "
-        "an equally named species from different starts in one directory, keep_input_files on/off); distinct by the full case spec. calc: sequences of Calculation(OptKeywords) "
+        "an equally named species from different starts in one directory, keep_input_files on/off; a seed-independent floor of "
+        "converging runs per optimiser, NDOptimiser.optimise, the conv_tol setter, coords=, extra_prims, species constraints "
+        "with every optimiser, saddle searches started at a minimum, print_geometries incl. an I/O fault); distinct by the full case spec. calc: sequences of Calculation(OptKeywords) "
         "through CalculationExecutorO in one directory (same name with changed / added constraints, exact repeats)")
 
 # Functions the hand-written parts of coq/C10/Model.v (and the structure-mirroring parts of this harness) were written
@@ -84,6 +89,21 @@ PINS = [
     ("autode/calculations/executors.py", "CalculationExecutorO._max_opt_cycles"),
     ("autode/calculations/executors.py", "CalculationExecutorO._set_properties_from_optimiser"),
     ("autode/species/species.py", "Species._reset_properties_for"), (_V, "Energies.append"), (_V, "Energy.__eq__"),
+    # wrappers / settings / post-run helpers exercised by the oracles (round 3)
+    (_B, "NDOptimiser.optimise"), (_B, "NDOptimiser.conv_tol"), (_B, "NDOptimiser.optimiser_params"),
+    (_B, "NDOptimiser.print_geometries"), (_B, "print_geometries_from"), (_B, "NDOptimiser._log_convergence"),
+    (_B, "OptimiserHistory.close"), (_B, "OptimiserHistory.save_opt_params"), (_B, "OptimiserHistory.get_opt_params"),
+    ("autode/calculations/executors.py", "CalculationExecutorO._calc_is_ts_opt"),
+    ("autode/calculations/executors.py", "CalculationExecutorO._step_size"),
+    ("autode/calculations/executors.py", "CalculationExecutorO._opt_trajectory_name"),
+    # how each optimiser builds its coordinates (constraints enter only through CRFO's) and its step helpers
+    ("autode/opt/optimisers/rfo.py", "RFOptimiser._initialise_run"), ("autode/opt/optimisers/prfo.py", "PRFOptimiser._initialise_run"),
+    ("autode/opt/optimisers/crfo.py", "CRFOptimiser._initialise_run"), ("autode/opt/optimisers/crfo.py", "CRFOptimiser._build_internal_coordinates"),
+    ("autode/opt/optimisers/crfo.py", "CRFOptimiser._get_rfo_step"), ("autode/opt/optimisers/crfo.py", "CRFOptimiser._check_shifted_hessian_has_correct_struct"),
+    ("autode/opt/optimisers/prfo.py", "PRFOptimiser._get_imag_mode_idx"),
+    ("autode/opt/optimisers/steepest_descent.py", "CartesianSDOptimiser._initialise_run"),
+    ("autode/opt/optimisers/steepest_descent.py", "DIC_SD_Optimiser._initialise_run"),
+    (_D, "DICWithConstraints._calc_U"), (_D, "DICWithConstraints.from_cartesian"),
 ]
 
 SLICE = ["lib/Sums.v", "lib/QcInst.v", "C10/Base.v", "C10/Model.v", "C10/Lemmas.v", "C10/Props.v", "C10/Corr.v",
@@ -650,6 +670,22 @@ def stream_params(ctx, env, factor_lists, full, fail):
                 if what:
                     fail("meets_criteria|criterion-exceeded", what + f" [thresholds requested as {spec}]",
                          dict(rep, values=dict(zip(ATTRS, vv))))
+    # the decision depends on its two arguments only: families of criteria that differ by less than the precision they
+    # are printed with, evaluated one after the other in this process (looser first), on the same measured values
+    for scale in (1e-3, 1e-4, 1e-5, 1e-6):
+        for shape in ([1, 1, 1, 1, 1], [None, 1, None, None, None], [1, 1, 2, None, None]):
+            loose = [None if k is None else 1.4 * scale * k for k in shape]
+            tight = [None if k is None else 0.6 * scale * k for k in shape]
+            vv = [0.001 if c is None else c * (0.69 if a in GRAD else 0.9) for a, c in zip(ATTRS, loose)]
+            vobj = env.CP(**dict(zip(ATTRS, vv)))
+            for cvals in (loose, tight, loose, tight):
+                ans, err = call_result(lambda: bool(env.CP(**dict(zip(ATTRS, cvals))).meets_criteria(vobj)))
+                ctx.count("params", ("sequence", scale, tuple(shape), tuple(cvals)))
+                what = decision_oracle(cvals, False, vv, ans)
+                if what:
+                    fail("meets_criteria|criterion-exceeded",
+                         what + " [after the same values were judged against criteria 1.4/0.6 times as large]",
+                         {"kind": "params-sequence", "sequence": [loose, tight, loose, tight], "values": vv})
     # constructor and multiplication
     ctor = [[1e-3, 1e-3, 1e-3, 1e-3, 1e-3], [0.0, 1e-3, 0.0, 0.0, 0.0], [1e-3, 0.0, 1e-3, 1e-3, 1e-3],
             [-1e-3, 1e-3, None, None, None], [1e-3, -1e-9, None, None, None], [None, 1e-3, None, None, -0.5],
@@ -701,7 +737,8 @@ def run_scripted(env, d, name, fail):
     script, SAT, maxiter = d["script"], d["SAT"], d["maxiter"]
     env.SCoords.TABLE = {x: s for x, s in zip(script["X"], SAT)}     # X is strictly increasing: ids are distinct
     tolobj = env.CP(**dict(zip(ATTRS, d["criteria"])), strict=d["strict"])
-    opt = env.Scripted(script, d["fuel"], maxiter=maxiter, conv_tol=tolobj)
+    extra = {"coords": env.SCoords(np.full(6, script["X"][0]))} if d.get("coords_arg") else {}
+    opt = env.Scripted(script, d["fuel"], maxiter=maxiter, conv_tol=tolobj, **extra)
     mol = env.ade.Molecule(name=name, atoms=[env.ade.Atom("H"), env.ade.Atom("H", x=1.0)])
     kind = 0
     try:
@@ -729,7 +766,9 @@ def run_scripted(env, d, name, fail):
     if kind == 0 and flag == "(Ok false)" and it < maxiter:
         fail("run|stopped-early-unconverged:scripted",
              f"scripted run left the loop at iteration {it} < maxiter {maxiter} without convergence", d)
-    if kind == 1 or flag not in ("(Ok true)", "(Ok false)"):
+    if d.get("coords_arg"):
+        pass    # constructor `coords=`: conv_params asserts on the unevaluated user coordinates (modelled: PRE = true)
+    elif kind == 1 or flag not in ("(Ok true)", "(Ok false)"):
         fail("run|convergence-bookkeeping-raises:scripted",
              f"scripted run: converged / conv_params raised ({flag}) on non-negative measures", d)
     return kind, it, flag
@@ -763,12 +802,13 @@ def stream_scripted(ctx, env, full, fail):
         SAT = [rng.random() > 0.2 for _ in range(L + 1)]
         script = {"X": [float(x) for x in X], "E": [float(e) for e in E], "G": [float(g) for g in G], "STP": STP}
         d = {"kind": "scripted", "maxiter": maxiter, "fuel": fuel, "criteria": [None if v is None else float(v) for v in c],
-             "strict": strict, "script": script, "SAT": SAT}
+             "strict": strict, "script": script, "SAT": SAT, "coords_arg": case_i % 8 == 5}
         kind, it, flag = run_scripted(env, d, f"c10s{case_i}", fail)
         d["impl"] = {"kind": kind, "iteration": it, "converged": flag}
         ctx.hist("scripted", ["done", "raised", "fuel"][kind] + ":" + flag)
+        ctx.hist("scripted", "coords-arg" if d["coords_arg"] else "default-history")
         terms.append(f"check_scripted {coq_list([coq_bool(b) for b in STP])} {qc_list(X)} {qc_list(E)} {qc_list(G)} "
-                     f"{coq_list([coq_bool(b) for b in SAT])} {params_lit([None if v is None else float(v) for v in c], strict)} "
+                     f"{coq_list([coq_bool(b) for b in SAT])} {coq_bool(d['coords_arg'])} {params_lit([None if v is None else float(v) for v in c], strict)} "
                      f"{coq_nat(maxiter)} {coq_nat(fuel)} {coq_nat(kind)} {coq_nat(it)} {flag}")
         descr.append(d)
         ctx.count("scripted", (case_i, maxiter, fuel, strict), sample={k: d[k] for k in ("maxiter", "fuel", "impl")})
@@ -1393,15 +1433,20 @@ def run_calc_sequence(ctx, env, spec, fail, rundir):
         env.methods_mod.get_lmethod = lambda: M
         want, _ = independent_tol("normal")           # CalculationExecutorO.conv_tol = "normal"
         first = {}
-        for k, (name, cons) in enumerate(spec["sequence"]):
+        for k, entry in enumerate(spec["sequence"]):
+            name, cons = entry[0], entry[1]
+            mode = entry[2] if len(entry) > 2 else "opt"      # "opt" | "ts" (OptTSKeywords -> PRFO) | "cycN" (MaxOptCycles(N))
+            maxcyc = int(mode[3:]) if mode.startswith("cyc") else 50
             mol = env.ade.Molecule(name="tet", atoms=[env.ade.Atom(a[0], a[1], a[2], a[3]) for a in spec["atoms"]])
             if cons:
                 mol.constraints.distance = {(int(i), int(j)): float(r) for i, j, r in cons}
             n0 = len(M.log)
             rep = {"kind": "calc", "pot": spec["pot"], "atoms": spec["atoms"], "sequence": spec["sequence"][:k + 1]}
-            label = f"Calculation '{name}' #{k} with constraints {cons} after {[(n, c) for n, c in spec['sequence'][:k]]}"
+            label = f"Calculation '{name}' #{k} ({mode}) with constraints {cons} after {[tuple(e) for e in spec['sequence'][:k]]}"
             try:
-                calc = env.Calculation(name, mol, M, keywords=env.OptKeywords())
+                kwds = (env.OptTSKeywords() if mode == "ts" else
+                        env.OptKeywords([env.MaxOptCycles(maxcyc)]) if mode.startswith("cyc") else env.OptKeywords())
+                calc = env.Calculation(name, mol, M, keywords=kwds)
                 calc.run()
                 conv = bool(calc.optimiser.converged)
                 it = calc.optimiser.iteration
@@ -1412,7 +1457,10 @@ def run_calc_sequence(ctx, env, spec, fail, rundir):
             grads = [l for l in M.log[n0:] if l[0] == "grad"]
             reused = not grads
             ctx.count("calc", (name, json.dumps(cons), k), sample={"name": name, "constraints": cons, "reused": reused})
-            ctx.hist("calc", ("reused" if reused else "ran") + (":converged" if conv else ":unconverged"))
+            ctx.hist("calc", mode + ":" + ("reused" if reused else "ran") + (":converged" if conv else ":unconverged"))
+            want_cls = "PRFOptimiser" if mode == "ts" else "CRFOptimiser"
+            if not reused and type(calc.optimiser).__name__ != want_cls:
+                fail("calc|wrong-optimiser-type", f"{label}: run with {type(calc.optimiser).__name__}, the keywords ask for {want_cls}", rep)
             x = np.array(mol.coordinates, dtype=float).reshape(-1, 3)
             e_ind, g_ind = pot.eg(x)
             bad = []
@@ -1424,22 +1472,36 @@ def run_calc_sequence(ctx, env, spec, fail, rundir):
                 bad.append("species coordinates are not the last evaluated point")
             if bad:
                 fail("calc|species-state", f"{label}: " + "; ".join(bad), rep)
-            if it > 50:
-                fail("calc|iteration-exceeds-maxiter", f"{label}: iteration {it} > 50", rep)
+            if it > maxcyc:
+                fail("calc|iteration-exceeds-maxiter", f"{label}: iteration {it} > {maxcyc}", rep)
+            if not conv and not reused and it < maxcyc:
+                fail("calc|stopped-early-unconverged", f"{label}: stopped unconverged at iteration {it} < {maxcyc}", rep)
+            if conv and mode == "ts":
+                ev = np.linalg.eigvalsh(rigid_projector(x) @ pot.hess(x) @ rigid_projector(x))
+                nneg = int(np.sum(ev < -1e-4))
+                ctx.hist("calc", f"ts:{nneg}-negative-eigenvalues; hessian {'set' if mol.hessian is not None else 'None'}; reused={reused}")
+                if nneg != 1:
+                    fail("calc|ts-not-first-order-saddle",
+                         f"{label}: the transition-state calculation reports converged with {nneg} negative Hessian eigenvalues", rep)
             if conv:
                 for i, j, r in cons:
                     dist = float(np.linalg.norm(x[i] - x[j]))
                     if not abs(dist - r) < CONSTRAINT_TOL * (1 + 1e-9):
+                        if mode == "ts" and int(calc.optimiser._history.final.n_constraints) == 0:
+                            fail("calc|ts-species-constraint-ignored",
+                                 f"{label}: OptTSKeywords -> PRFOptimiser drops the molecule's distance constraints: converged with "
+                                 f"distance({i},{j}) = {dist:.6f}, constraint {r}", rep)
+                            continue
                         fail("calc|converged-constraint-unmet",
                              f"{label}: the calculation's optimiser reports converged but distance({i},{j}) = {dist:.6f} "
                              f"for the molecule's constraint {r} (tolerance {CONSTRAINT_TOL}); reloaded trajectory: {reused}", rep)
-                rms_g, max_g = projected_measures(g_ind, constraint_vectors(x, cons))
+                rms_g, max_g = projected_measures(g_ind, constraint_vectors(x, cons) if mode != "ts" else constraint_vectors(x, []))
                 for a, v in (("rms_g", rms_g), ("max_g", max_g)):
                     c = want[ATTRS.index(a)]
-                    if not v <= c * (1 + 1e-5):
+                    if v is not None and not v <= c * (1 + 1e-5):
                         fail(f"calc|converged-{a}-above-threshold",
                              f"{label}: reports converged but independent in-surface {a} = {v:.4e} > {c:.4e}; reloaded: {reused}", rep)
-            key = (name, json.dumps(cons))
+            key = (name, json.dumps(cons), mode)
             if key in first:
                 x1, e1, c1 = first[key]
                 if c1 != conv or np.abs(x - x1).max() > 1e-10 or abs(float(mol.energy) - e1) > 1e-12:
@@ -1455,11 +1517,28 @@ def stream_calc(ctx, env, full, fail):
     for rnd in range(2 if full else 1):
         spec = {"pot": CALC_POT, "atoms": CALC_ATOMS, "sequence": calc_sequences(ctx.rng, full)}
         run_calc_sequence(ctx, env, spec, fail, os.path.join(ctx.work, f"calc{rnd}"))
+    # transition-state calculations (OptTSKeywords -> PRFOptimiser + final Hessian), a repeat, a cycle limit, and a
+    # distance constraint on a TS calculation
+    run_calc_sequence(ctx, env, {"pot": DW3_POT, "atoms": DW3_TS,
+                                 "sequence": [["ts", [], "ts"], ["ts", [], "ts"], ["min", [], "opt"], ["few", [], "cyc2"],
+                                              ["tsc", [[0, 1, 1.3]], "ts"]]}, fail, os.path.join(ctx.work, "calc_ts"))
     ctx.log(f"calculation-layer sequences in {time.time() - t0:.1f}s")
 
 
 # ============================================================================ driver
 def run(ctx):
+    import fcntl
+    os.makedirs(os.path.join(VERIF, ".work"), exist_ok=True)
+    lk = open(os.path.join(VERIF, ".work", "c10.run.lock"), "w")
+    fcntl.flock(lk, fcntl.LOCK_EX)       # coq/gen/C10_Gen.v is regenerated per run: one C10 check at a time
+    try:
+        return _run(ctx)
+    finally:
+        fcntl.flock(lk, fcntl.LOCK_UN)
+        lk.close()
+
+
+def _run(ctx):
     full = not ctx.quick
     pins_changed = source_pins(ctx.pid, PINS)
     ctx.cov["source_pins"] = {"pinned": len(PINS), "changed": pins_changed}
@@ -1494,7 +1573,12 @@ def run(ctx):
     nfail = [0]
     seen_keys = {}
 
+    known = set(ctx.known_keys())
+
     def fail(key, what, rep):
+        if key in known:
+            ctx.finding(key, what, rep)          # prints KNOWN-FINDING once; not a failure of this run
+            return
         nfail[0] += 1
         seen_keys[key] = seen_keys.get(key, 0) + 1
         if seen_keys[key] <= 2 and sum(1 for k in seen_keys) <= 16:
@@ -1583,6 +1667,14 @@ def replay(ctx, obj):
     elif kind == "calc":
         ctx.cov["streams"] = {}
         run_calc_sequence(ctx, env, rep, fail, os.path.join(ctx.work, "calc_replay"))
+    elif kind == "params-sequence":
+        vobj = env.CP(**dict(zip(ATTRS, rep["values"])))
+        for cvals in rep["sequence"]:
+            ans = bool(env.CP(**dict(zip(ATTRS, cvals))).meets_criteria(vobj))
+            print("criteria", cvals, "->", ans)
+            what = decision_oracle(cvals, False, rep["values"], ans)
+            if what:
+                fail("meets_criteria|criterion-exceeded", what, rep)
     elif kind == "params-units":
         spec = rep["criteria"]
         want, _ = independent_tol(spec)
@@ -1607,25 +1699,33 @@ def replay(ctx, obj):
 
 MANIFEST = {
     "technique": "Coq proof over a model regenerated from source (ast translator of the convergence decision, the "
-                 "converged gate, the run loop body and the limit test) + model/implementation correspondence on "
-                 "ConvergenceParams, scripted loops and real optimiser states + analytic-mock optimiser oracles",
+                 "converged gate, the run loop body, the limit test and the constraint tolerance) + source pins for the "
+                 "hand-modelled functions + model/implementation correspondence on ConvergenceParams, scripted loops and "
+                 "real optimiser states + analytic-mock optimiser oracles (in-process, file-based, calculation layer)",
     "level_text": ("Machine-checked theorems (coq/C10/Props.v, closed under the global context) over definitions "
                    "regenerated from autode/opt/optimisers/base.py on every run: meets_criteria = True implies RMS and "
                    "max gradient within their thresholds and |dE|, RMS step, max step within 3x theirs (all five within 1x "
-                   "when strict) for EVERY pair of ConvergenceParams objects; unset criteria count as satisfied; "
-                   "converged requires all constraints satisfied; the iteration counter never exceeds maxiter for ANY "
-                   "step / gradient / callback functions and maxiter passes always suffice; the flag read after run() is "
-                   "the decision on the final history (a run cut by the limit reports non-convergence unless its last "
-                   "point meets the criteria); the final history entry is always an evaluated point; conv_params never "
-                   "raises on zero/inf measures; equal constraint counters mean every constraint deviation is within "
-                   "the translated tolerance; satisfied-constraint components are masked out of the projected gradient.  PARTIAL: that the numerical step rules reach "
-                   "a stationary point, the species/last-point bookkeeping, reload, and 'exactly one negative Hessian "
-                   "eigenvalue' are exercised on real RFO/CRFO/PRFO/steepest-descent runs over analytic surfaces with "
-                   "independent re-evaluation, not proved."),
-    "level_note": ("Trusted: Coq kernel + vm_compute (two decidable sweeps over the translated program); "
-                   "tr/translate_c10.py (fail-closed; pins the text of __mul__, conv_params, _to_base_units, the history "
-                   "setter and the statements around the loop); the hand model of __mul__/__post_init__/conv_params/"
-                   "cart_proj_g/loop state, validated each run by three correspondence streams; exact rationals for "
-                   "doubles (near-tie comparisons with inexact float products skipped and counted); the analytic test "
-                   "potentials and numpy/scipy in the oracles.  Base units assumed (unit conversion is C06)."),
+                   "when strict) for EVERY pair of ConvergenceParams objects; unset criteria count as satisfied; the "
+                   "composition on concrete history entries (converged_point_within_tolerances): converged = True implies "
+                   "every constraint deviation within the translated tolerance and the conv_params measures of the final two "
+                   "entries within the thresholds; the iteration counter never exceeds maxiter for ANY step / gradient / "
+                   "callback functions and any constructor-supplied history prefix shorter than maxiter; maxiter passes "
+                   "suffice; the flag read after run() is the decision on the final history; the species component of the "
+                   "state always holds the snapshot of the evaluated final entry; conv_params never raises on zero/inf "
+                   "measures.  PARTIAL (exercised by oracles on real RFO/CRFO/PRFO/steepest-descent runs over analytic "
+                   "surfaces, not proved): that the numerical step rules reach a stationary point; that cart_proj_g is the "
+                   "projection onto the constraint surface (only masking of the given inactive indexes is proved: "
+                   "projected_gradient_masks_inactive_components_partial); that the species' constraints are the "
+                   "coordinates' constraints (FALSE for PRFO/RFO/steepest descent: findings "
+                   "converged|species-constraint-ignored:*); 'exactly one negative Hessian eigenvalue' (converged has no "
+                   "curvature test: finding converged|prfo-not-first-order-saddle:at-iteration-0); species object = snapshot; "
+                   "reload; unit conversion of thresholds; the calculation layer."),
+    "level_note": ("Trusted: Coq kernel + vm_compute (two decidable sweeps over the translated program, examples); "
+                   "tr/translate_c10.py (fail-closed; text pins) and the 61 source pins of harness/c10.py:PINS; the hand model "
+                   "of __mul__/__post_init__/conv_params/cart_proj_g/loop state, validated each run by three correspondence "
+                   "streams; exact rationals for doubles (near-tie comparisons with inexact float products skipped and "
+                   "counted); the analytic test potentials and numpy/scipy in the oracles.  Base units assumed in the model "
+                   "(conversion checked by an oracle).  conv_params is modelled totally (empty / unequal vectors give 0 where "
+                   "numpy raises; excluded by premises).  A floor on converging runs per optimiser guards against silent loss "
+                   "of coverage (runs|coverage-collapsed)."),
 }
